@@ -292,7 +292,8 @@ class Runner:
                         if exp and not faulted:
                             errs.append(('C12:false-but-free', 'acquire failed although the lock was free',
                                          dict(where, got=repr(got))))
-                        if not exp and not (lo - EPS <= el <= hi + EPS):
+                        # (an injected OSError may end a doomed attempt early: only upper bounds apply then)
+                        if not exp and not faulted and not (lo - EPS <= el <= hi + EPS):
                             errs.append(('C12:time', 'elapsed time outside the bound',
                                          dict(where, elapsed=el, lo=lo, hi=hi)))
                         if faulted:
@@ -343,7 +344,13 @@ class Runner:
                             s.block(lambda: state['final'] == t, None, 'fin')
                             continue
                         tt, o, op = seq[state['i']]
-                        do(state['i'], tt, o, op)
+                        # an injected fault can make the tracked state differ from the one the sequence was
+                        # generated for: steps that are then outside the contract (releasing another thread's
+                        # lock, a blocking acquire that can never succeed) are skipped, not executed
+                        if legal(m, tt, o, op):
+                            do(state['i'], tt, o, op)
+                        else:
+                            info['flags'].add('step_skipped_out_of_contract_after_fault')
                         state['i'] += 1
                 return body
 
